@@ -21,6 +21,7 @@ Proved:
 Decided on traces (monitor C13, families sync / syncglitch): that a non-deterministic step leads to
 such a cell/history disagreement within check_distance + 2 calls, first at the frame after it.
 -/
+import GgrsModel.Model.Inventory
 import GgrsModel.Properties.C16
 import GgrsModel.Proofs.SyncTestProof
 import GgrsModel.Proofs.SyncTestWindow
